@@ -413,3 +413,52 @@ Proof.
       cbn [of_res abind]. eexists; reflexivity.
     + cbn [abind]. eexists; reflexivity.
 Qed.
+
+(* ---------- tick texts (C07_ticktext) ----------------------------------------------------- *)
+(* positions and texts are the same tick list, zipped: every tick's text is the format
+   applied to the tick AT THAT position *)
+Theorem axis_tick_text i o : axis i = AOk o ->
+  ax_tick_text o = map (tick_format o) (ax_tick_at o) /\
+  combine (ax_ticks o) (ax_tick_text o) =
+    map (fun p => (ax_pos o (coord p), tick_format o p)) (ax_tick_at o).
+Proof.
+  intros H.
+  assert (E : ax_tick_text o = map (tick_format o) (ax_tick_at o)).
+  { revert H. unfold axis.
+    destruct (map (parse (ai_today i)) (ai_data i)) as [|p0 pr] eqn:EI; [discriminate|].
+    rewrite <- EI. clear p0 pr EI. intros H.
+    destruct (ai_kind i).
+    - unfold axis_linear in H. apply abind_ok in H. destruct H as (xs & _ & H).
+      destruct xs as [|x0 xr]; [discriminate|].
+      apply abind_ok in H. destruct H as ([d0 d1] & _ & H).
+      apply abind_ok in H. destruct H as (tk & _ & H). injection H as <-.
+      unfold tick_format. cbn [ax_tick_text ax_tick_at ax_d0 ax_d1 coord]. rewrite map_map. reflexivity.
+    - unfold axis_time in H. apply abind_ok in H. destruct H as (ts & _ & H).
+      destruct ts as [|t0 tr]; [discriminate|].
+      apply abind_ok in H. destruct H as ([d0 d1] & _ & H).
+      apply abind_ok in H. destruct H as (tk & _ & H). injection H as <-.
+      unfold tick_format. cbn [ax_tick_text ax_tick_at]. rewrite map_map. reflexivity. }
+  split; [exact E|].
+  destruct (axis_counts i o H) as [_ Et]. rewrite E, Et.
+  generalize (ax_tick_at o) as l. induction l as [|p l IH]; cbn [map combine]; [reflexivity|].
+  rewrite IH. reflexivity.
+Qed.
+
+(* ... and in the drawn documents: tick j is drawn at the position of the j-th tick
+   with the formatted value of THAT tick as its text *)
+Theorem axis_ticks_drawn i o s j p : axis i = AOk o -> o_ticks (sc_opts s) = true ->
+  sc_ticks s = combine (ax_ticks o) (ax_tick_text o) ->
+  nth_error (ax_tick_at o) j = Some p ->
+  let d := o_dir (sc_opts s) in
+  let text := tick_format o p in
+  let pos := ax_pos o (coord p) in
+  (exists ts pt, pc_ticks (geom_svg (svg_doc_of s)) = Some ts /\ nth_error ts j = Some (pt, text) /\
+        nval (np_along d pt) == pos /\ nval (np_cross d pt) == 0) /\
+  (exists ts pt, pc_ticks (geom_tikz (tikz_doc_of s)) = Some ts /\ nth_error ts j = Some (pt, text) /\
+        nval (np_along d pt) = inject_Z (trunc pos) /\ nval (np_cross d pt) == 0).
+Proof.
+  intros H T Es Ej d text pos.
+  destruct (axis_tick_text i o H) as [_ Ec].
+  apply (ticks_drawn s j pos text T).
+  rewrite Es, Ec, nth_error_map, Ej. reflexivity.
+Qed.
